@@ -379,7 +379,7 @@ def _seq_worker(job):
             hangs += 1
             tr = [{"ev": "CFG", "maxEntries": maxEntries, "maxAge": maxAge},
                   {"ev": "op", "op": "get", "id": "?", "s": 0, "now": 0, "res": "err", "size": 0,
-                   "exc": "operation did not return within 5 s", "where": "history " + hist_str(h)}]
+                   "exc": "operation did not return within 5 s", "hang": hist_str(h)}]
         traces.append(tr)
         hists.append(h)
         if hangs >= 2:
@@ -462,7 +462,7 @@ def cache_scenarios(tier, dup_ok):
     return S
 
 
-def run_cache_scenario(sc, chooser, max_steps=3000, keys=True):
+def run_cache_scenario(sc, chooser, max_steps=800, keys=True):
     CTX.reset("c18-" + sc["name"], now=T0)
     _install_time_shim()
     run = sched.Run(_files(), chooser, max_steps=max_steps)
@@ -588,7 +588,7 @@ def make_key(sc, run):
     return key, cfg, int(key.d), int(key.n)
 
 
-def run_rsa_scenario(sc, chooser, max_steps=3000, keys=True):
+def run_rsa_scenario(sc, chooser, max_steps=800, keys=True):
     salt = sc.get("salt", 0)
     CTX.reset("c18-%s-%d" % (sc["name"], salt))
     run = sched.Run(_files(), chooser, max_steps=max_steps)
@@ -678,7 +678,7 @@ def db_scenarios(tier):
     return S
 
 
-def run_db_scenario(sc, chooser, max_steps=3000, workdir=None, keys=True):
+def run_db_scenario(sc, chooser, max_steps=800, workdir=None, keys=True):
     from tlslite.verifierdb import VerifierDB
     vs = verifiers()
     CTX.reset("c18-" + sc["name"])
@@ -791,6 +791,8 @@ def _explore_worker(job):
             d["n"] += 1
             if ov and not d["overlapped"]:
                 d["overlapped"] = True
+        # executions that deadlock / never finish / crash are slow and each one is already a finding
+        return sum(v for k, v in stats["outcomes"].items() if k != "ok") >= 40
     if mode == "dfs":
         st = sched.explore(lambda ch: runner(sc, ch), arg, on_run, max_runs=cap)
         stats["truncated"] = st["truncated"]
@@ -800,7 +802,8 @@ def _explore_worker(job):
     else:
         for i in range(arg):
             rnd = random.Random(repr((env.SEED, "c18", kind, sc["name"], i)))
-            on_run(runner(sc, sched.RandomChooser(rnd, p=rnd.choice([0.1, 0.3, 0.6])), keys=False))
+            if on_run(runner(sc, sched.RandomChooser(rnd, p=rnd.choice([0.1, 0.3, 0.6])), keys=False)):
+                break
         stats["truncated"] = False
     return {"kind": kind, "sc": sc, "mode": mode, "arg": arg, "stats": stats, "distinct": list(distinct.values())}
 
@@ -1053,6 +1056,12 @@ def run(tier):
             rep.evaluations += res["n"]
             for rj in res["rej"]:
                 shape, obs = classify_cache(rj["trace"], rj["matched"])
+                if any(e.get("hang") for e in rj["trace"]):        # watchdog: name the shape from the history text
+                    cnt = {}
+                    for (op, i, dt) in rj["hist"]:
+                        if op == "s":
+                            cnt[i] = cnt.get(i, 0) + 1
+                    shape = "same-id-set-twice" if any(v > 1 for v in cnt.values()) else "ids-stored-once"
                 g = groups.setdefault((shape, obs), {"n": 0, "ex": None})
                 g["n"] += 1
                 if g["ex"] is None or len(rj["hist"]) < len(g["ex"]["hist"]) or \
